@@ -16,6 +16,7 @@ class Repo:
         self.blob_ids = {}        # git blob sha -> small content id
         self.sha256_ids = {}      # sha256 hex -> content id
         self.commits = []
+        self.ever_empty = set()
         self.repo = vlib.mk_repo(ctx, CFG, extra_files={"a/_keep": "k", "b/_keep": "k", "c/_keep": "k", "a/sub/_keep": "k"})
         with open(os.path.join(self.repo, ".gitignore"), "a") as f: f.write("ign/\n")
         vlib.git(self.repo, "add", "-A"); vlib.git(self.repo, "commit", "-q", "-m", "ignore")
@@ -89,7 +90,7 @@ class Repo:
         if op == "empty":
             # a zero-length file: its checksum must still differ from the empty checksum that stands for "no such file"
             n = rng.choice(NAMES); os.makedirs(os.path.dirname(os.path.join(r, n)) or r, exist_ok=True)
-            open(os.path.join(r, n), "wb").close(); return ("empty", n)
+            open(os.path.join(r, n), "wb").close(); self.ever_empty.add(n); return ("empty", n)
         if op == "write":
             n = rng.choice(NAMES); os.makedirs(os.path.dirname(os.path.join(r, n)) or r, exist_ok=True)
             open(os.path.join(r, n), "wb").write(self.fresh_content(rng)); return ("write", n)
@@ -103,7 +104,10 @@ class Repo:
             os.makedirs(os.path.dirname(os.path.join(r, m)) or r, exist_ok=True)
             if op == "gitmv":
                 rc = subprocess.run(["git", "mv", "-f", n, m], cwd=r, capture_output=True, env={**os.environ, **vlib.GIT_ENV}).returncode
-                if rc == 0: return ("gitmv", n, m)
+                if rc == 0:
+                    if n in self.ever_empty: self.ever_empty.add(m)
+                    return ("gitmv", n, m)
+            if n in self.ever_empty: self.ever_empty.add(m)
             os.replace(os.path.join(r, n), os.path.join(r, m)); return ("mv", n, m)
         if op == "add" and existing:
             n = rng.choice(existing); vlib.git(r, "add", "-f" if n.startswith("ign/") and rng.random() < 0.0 else "--", n, check=False); return ("add", n)
@@ -215,7 +219,8 @@ def scenario(ctx, sseed, focus):
                     after_delete(ctx, repo, trail)
                 continue
             if focus == "C07" and r < 0.45:
-                c07_round(ctx, repo, rng, trail)
+                if rng.random() < 0.25: c07_stale_round(ctx, repo, rng, trail)
+                else: c07_round(ctx, repo, rng, trail)
                 continue
             trail.append(list(repo.apply(rng, "bulk" if (focus == "C02" and rng.random() < 0.12) else None)))
             opts = {}
@@ -237,6 +242,33 @@ def after_delete(ctx, repo, trail):
     ctx.count("after_delete")
     ctx.record({"trail": list(trail), "what": "no checkpoint => checkpointed=false, all targets, show fails"}, True, ok, ok, True,
                sample={"ops": trail[-4:], "analyze": out, "show_rc": rc2}, detail={"analyze": out, "show_rc": rc2})
+
+def c07_stale_round(ctx, repo, rng, trail):
+    """A path that was pending (deleted) at one update --pending, then restored and committed; a second update --pending
+    on the clean tree; then the committed file is deleted: the deletion must be reported."""
+    r = repo.repo
+    vlib.git(r, "add", "-A"); subprocess.run(["git", "commit", "-q", "-m", "clean"], cwd=r, capture_output=True, env={**os.environ, **vlib.GIT_ENV})
+    repo.commits.append(repo.rev("HEAD"))
+    tracked = [p.decode("utf-8", "replace") for p in vlib.git(r, "ls-files", "-z").split(b"\0") if p]
+    cand = [n for n in tracked if n in NAMES and os.path.isfile(os.path.join(r, n))]
+    if not cand: return
+    n = rng.choice(cand)
+    os.remove(os.path.join(r, n)); trail.append(["delete", n])
+    if do_update(ctx, repo, rng, trail, "C07", pending=True) is None: return
+    vlib.git(r, "checkout", "--", n); trail.append(["restore", n])
+    new = do_update(ctx, repo, rng, trail, "C07", pending=True)
+    if new is None: return
+    rc, out, err, raw = vlib.monorail(r, "analyze", "--changes")
+    ok0 = rc == 0 and out and out.get("changes") == []
+    os.remove(os.path.join(r, n)); trail.append(["novel_delete", n])
+    out = eval_changes(ctx, repo, {}, "C07", list(trail))
+    got = set(c["path"] for c in (out or {}).get("changes") or [])
+    ok = ok0 and got == {n}
+    ctx.count("stale_snapshot_round")
+    ctx.record({"trail": list(trail), "what": "deleting a committed file after an update --pending on a clean tree must be reported, whatever an EARLIER update had recorded for that path"},
+               True, ok, ok, True, sample={"deleted": n, "reported": sorted(got), "checkpoint_pending": new.get("pending")},
+               detail={"deleted": n, "reported": sorted(got), "checkpoint": new, "clean_after_update": ok0})
+    vlib.git(r, "checkout", "--", n); trail.append(["restore", n])
 
 def c07_round(ctx, repo, rng, trail):
     """update --pending in whatever dirty state we are in; nothing may be reported; then novel edits re-flag exactly."""
@@ -261,17 +293,17 @@ def c07_round(ctx, repo, rng, trail):
             open(os.path.join(r, n), "wb").write(repo.fresh_content(rng))
         elif kind == "create_empty":
             # never existed at update time -> now exists with zero length (a state it never had)
-            cand = [n for n in NAMES if not os.path.exists(os.path.join(r, n)) and not n.startswith("ign/") and n not in edited and n not in committed]
+            cand = [n for n in NAMES if not os.path.exists(os.path.join(r, n)) and not n.startswith("ign/") and n not in edited and n not in committed and n not in repo.ever_empty]
             if not cand: continue
             n = rng.choice(cand); os.makedirs(os.path.dirname(os.path.join(r, n)) or r, exist_ok=True)
-            open(os.path.join(r, n), "wb").close()
+            open(os.path.join(r, n), "wb").close(); repo.ever_empty.add(n)
         elif kind == "truncate":
             # novel only if the checkpoint commit does not already hold this path as an empty file
             empty_id = repo.cid_of_bytes(b"")
             empty_in_commit = set(p.decode("utf-8", "replace") for p, c in repo.tree_of(new["id"]) if c == empty_id)
-            cand = [n for n in existing if os.path.getsize(os.path.join(r, n)) > 0 and n not in edited and n not in empty_in_commit]
+            cand = [n for n in existing if os.path.getsize(os.path.join(r, n)) > 0 and n not in edited and n not in empty_in_commit and n not in repo.ever_empty]
             if not cand: continue
-            n = rng.choice(cand); open(os.path.join(r, n), "wb").close()
+            n = rng.choice(cand); open(os.path.join(r, n), "wb").close(); repo.ever_empty.add(n)
         elif kind == "modify" and existing:
             n = rng.choice(existing); open(os.path.join(r, n), "wb").write(repo.fresh_content(rng))
         elif kind == "delete":
